@@ -338,7 +338,13 @@ func runC20(cfg config) {
 	}
 
 	// ---- CExtOps --------------------------------------------------------------------------------------------------------------
-	urlOf := func(u int) string { return fmt.Sprintf("urn:u%d", u) }
+	// urls 0..3 are plain; 4.. differ from an earlier one only in letter case or by a trailing character (other urls all the same)
+	urlNames := []string{"urn:u0", "urn:u1", "urn:u2", "urn:u3", "urn:U0", "URN:u1", "urn:u2/", "urn:u", "Urn:U3"}
+	urlOf := func(u int) string { return urlNames[u%len(urlNames)] }
+	urlID := map[string]int{}
+	for i, n := range urlNames {
+		urlID[n] = i
+	}
 	mkExt := func(u, v int) *dtpb.Extension {
 		return &dtpb.Extension{Url: &dtpb.Uri{Value: urlOf(u)}, Value: &dtpb.Extension_ValueX{Choice: &dtpb.Extension_ValueX_StringValue{StringValue: &dtpb.String{Value: fmt.Sprintf("v%d", v)}}}}
 	}
@@ -346,7 +352,7 @@ func runC20(cfg config) {
 		var out []string
 		for _, e := range t.GetExtension() {
 			u, v := 0, 0
-			fmt.Sscanf(e.GetUrl().GetValue(), "urn:u%d", &u)
+			u = urlID[e.GetUrl().GetValue()]
 			switch x := verifhook.ExtensionUnwrap(e).(type) {
 			case *dtpb.String:
 				fmt.Sscanf(x.GetValue(), "v%d", &v)
@@ -369,13 +375,13 @@ func runC20(cfg config) {
 			target = &dtpb.HumanName{}
 		}
 		nInit := r.intn(7)
-		nURL := 2 + r.intn(3)
+		nURL := 3 + r.intn(5)
 		var initC []string
 		var initE []*dtpb.Extension
 		for k := 0; k < nInit; k++ {
 			u := 1 + r.intn(nURL)
 			if k > 0 && r.intn(3) == 0 { // runs of the same url
-				fmt.Sscanf(initE[k-1].GetUrl().GetValue(), "urn:u%d", &u)
+				u = urlID[initE[k-1].GetUrl().GetValue()]
 			}
 			initE = append(initE, mkExt(u, nextV))
 			initC = append(initC, fmt.Sprintf("(%s, %s)", coqN(uint64(u)), coqN(uint64(nextV))))
